@@ -130,10 +130,37 @@ def check_module(h, r, module, label):
                     "what": site or "-"}, r, f"op {n}: {detail}")
 
 
+BIG = 12000   # chunks larger than this are swept one self-contained top-level op at a time
+
+
+def self_contained(op) -> bool:
+    inner = set()
+    for o in op.walk():
+        inner.update(id(x) for x in o.results)
+        for rg in o.regions:
+            for b in rg.blocks:
+                inner.update(id(a) for a in b.args)
+    return all(id(v) in inner for o in op.walk() for v in o.operands)
+
+
 def load_chunk(r):
+    from xdsl.dialects.builtin import ModuleOp
     for rel, idx, text in corpus.chunks():
         if rel == r["file"] and idx == r["idx"]:
-            return corpus.parse_chunk(text)
+            m = corpus.parse_chunk(text)
+            if m is None or r.get("top") is None:
+                return m
+            tops = list(m.body.block.ops)
+            if r["top"] >= len(tops) or not self_contained(tops[r["top"]]):
+                return None
+            op = tops[r["top"]]
+            op.detach()
+            sub = ModuleOp([op])
+            try:
+                sub.verify()
+            except Exception:
+                return None
+            return sub
     return None
 
 
@@ -199,7 +226,30 @@ def mutate(module, muts) -> int:
     return kept
 
 
+class _Timeout(BaseException):
+    pass
+
+
+def _alarm(signum, frame):
+    raise _Timeout()
+
+
 def run(h, r):
+    """One case under a 40 s watchdog (a printer or parser that loops is inconclusive here, it is
+    C07's subject; the case is named in the evidence notes)."""
+    import signal
+    signal.signal(signal.SIGALRM, _alarm)
+    signal.setitimer(signal.ITIMER_REAL, 40)
+    try:
+        _run(h, r)
+    except _Timeout:
+        h.inconclusive("case_timeout")
+        h.notes.append(f"timeout: {r.get('file')}#{r.get('idx')} {r.get('mut')}")
+    finally:
+        signal.setitimer(signal.ITIMER_REAL, 0)
+
+
+def _run(h, r):
     module = load_chunk(r)
     if module is None:
         h.discard("chunk_rejected")
@@ -298,13 +348,25 @@ def checks(h):
             cur, done = rel, set()
         r = {"kind": "corpus", "file": rel, "idx": idx}
         run(h, r)
-        module = load_chunk(r)
-        if module is None:
-            continue
-        for mut in sweep_jobs(module):
-            opname = list(module.walk())[mut[1]].name
-            key = (opname, mut[0], mut[2])
-            if key in done:
+        text = next(t for rl, ix, t in ch if rl == rel and ix == idx)
+        if len(text) <= BIG:
+            units = [r]
+        else:
+            # a big chunk: sweep each self-contained top-level op (e.g. a func.func) as its own module,
+            # so that one variant does not cost a round trip of the whole file
+            whole = load_chunk(r)
+            ntop = len(list(whole.body.block.ops)) if whole is not None else 0
+            units = [{"kind": "corpus", "file": rel, "idx": idx, "top": k} for k in range(ntop)]
+            if h.quick:
+                units = units[:12]   # quick: the first 12 top-level ops of a big chunk; thorough: all
+        for unit in units:
+            module = load_chunk(unit)
+            if module is None:
                 continue
-            done.add(key)
-            run(h, {"kind": "sweep", "file": rel, "idx": idx, "mut": mut})
+            for mut in sweep_jobs(module):
+                opname = list(module.walk())[mut[1]].name
+                key = (opname, mut[0], mut[2])
+                if key in done:
+                    continue
+                done.add(key)
+                run(h, {**unit, "kind": "sweep", "mut": mut})
